@@ -1407,3 +1407,51 @@ func helperTrueFacts(cf condFact, depth int) ([]condFact, map[ssa.Value]ssa.Valu
 	}
 	return out, subst
 }
+
+// helperReturnSiteFacts: for a fact "boolean helper h(args) answered Want", the facts that dominate each return of h
+// that can yield that value (one list per return), and the parameter -> actual substitution.
+func helperReturnSiteFacts(cf condFact) ([][]condFact, map[ssa.Value]ssa.Value) {
+	if cf.Call == nil {
+		return nil, nil
+	}
+	sc := cf.Call.Common().StaticCallee()
+	if sc == nil || sc.Blocks == nil || sc.Pkg == nil || !strings.HasPrefix(sc.Pkg.Pkg.Path(), modPath) || sc.Signature.Results().Len() != 1 {
+		return nil, nil
+	}
+	if bt, ok := sc.Signature.Results().At(0).Type().Underlying().(*types.Basic); !ok || bt.Kind() != types.Bool {
+		return nil, nil
+	}
+	var out [][]condFact
+	for _, b := range sc.Blocks {
+		ret, ok := b.Instrs[len(b.Instrs)-1].(*ssa.Return)
+		if !ok || b.Comment == "recover" {
+			continue
+		}
+		k, isConst := resolve(ret.Results[0]).(*ssa.Const)
+		if isConst && k.Value != nil && k.Value.Kind() == constant.Bool && constant.BoolVal(k.Value) != cf.Want {
+			continue
+		}
+		var fs []condFact
+		for _, b2 := range sc.Blocks {
+			if ifOf(b2) == nil {
+				continue
+			}
+			for s := 0; s < 2; s++ {
+				if edgeDominates(edge{b2, s}, ret.Block()) {
+					fs = append(fs, expandFact(edgeFact(edge{b2, s}), 0)...)
+				}
+			}
+		}
+		if !isConst {
+			fs = append(fs, expandFact(factOf(resolve(ret.Results[0]), cf.Want), 0)...)
+		}
+		out = append(out, fs)
+	}
+	subst := map[ssa.Value]ssa.Value{}
+	for i, prm := range sc.Params {
+		if i < len(cf.Call.Common().Args) {
+			subst[prm] = cf.Call.Common().Args[i]
+		}
+	}
+	return out, subst
+}
